@@ -398,13 +398,15 @@ def match_finding(findings, prop, episode, ev, why):
     return None
 
 
-def save_replay(prop, episode):
+def save_replay(prop, episode, write=True):
+    """Path of the replay file of an episode (named by its content); written unless write is False."""
     REPLAYS.mkdir(exist_ok=True)
     s = json.dumps(episode, separators=(",", ":"), sort_keys=True)
     h = hashlib.sha1(s.encode()).hexdigest()[:12]
     p = REPLAYS / ("%s-%s.json" % (prop, h))
-    with open(p, "w") as f:
-        f.write(s + "\n")
+    if write:
+        with open(p, "w") as f:
+            f.write(s + "\n")
     return p
 
 
